@@ -267,6 +267,80 @@ struct Exec
 	}
 };
 
+
+// ---------------------------------------------------------------------------------------------
+// second family: one client socket OBJECT dials, abandons the attempt (cancel, or close + open + bind) at
+// time t1 and dials again dt later. Every (first target, way of abandoning, t1, second target, dt) of a
+// grid; one-way latency 40 ms, so a handshake takes 80 ms and a refusal 50 ms: the grid puts t1 and
+// t1 + dt before, at and after both. The second dial is judged like any connect of the statement.
+// ---------------------------------------------------------------------------------------------
+struct Redial { int first; /*0 unbound port, 1 bound but not listening, 2 the listening acceptor*/ int how; /*0 cancel(), 1 close(); open(); bind()*/ int t1; int second; /*0 the listening acceptor, 1 unbound port*/ int dt; };
+std::string redial_str(Redial const& r) { return fmt("c.connect(%s); at %d ms %s; %d ms later c.connect(%s)", r.first == 0 ? "unbound" : r.first == 1 ? "bound, not listening" : "listening A", r.t1, r.how == 0 ? "c.cancel()" : "c.close(), open(), bind()", r.dt, r.second == 0 ? "listening A" : "unbound"); }
+struct RedialRes { std::vector<std::string> fails; std::string trace; uint64_t transitions = 0; };
+RedialRes run_redial(Redial const& r)
+{
+	RedialRes R; auto fail = [&](std::string const& f) { R.fails.push_back(f); };
+	auto ev = [&](std::string const& e) { R.trace += fmt("@%lld %s ; ", (long long)(now_ns() / 1000), e.c_str()); ++R.transitions; };
+	World w;
+	w.on_build = [](World& ww, sim::simulation&) { auto q = ww.queue(0, ms(40), 0); ww.chan = [q](ip::address, ip::address) { return World::hops_t{ q }; }; };
+	sim::simulation sim(w);
+	asio::io_context nS(sim, addr("10.0.1.1")), nC(sim, addr("10.0.0.1"));
+	ip::tcp::acceptor A(nS); A.open(ip::tcp::v4()); A.bind(ip::tcp::endpoint(addr("10.0.1.1"), 6000)); A.listen();
+	ip::tcp::socket bound_only(nS); bound_only.open(ip::tcp::v4()); bound_only.bind(ip::tcp::endpoint(addr("10.0.1.1"), 6100));
+	struct Acc { std::shared_ptr<ip::tcp::socket> s; std::string got; std::vector<char> buf; std::string remote; };
+	std::vector<std::shared_ptr<Acc>> accs; std::function<void()> post_accept;
+	post_accept = [&]() { auto a = std::make_shared<Acc>(); a->s = std::make_shared<ip::tcp::socket>(nS); a->buf.resize(64);
+		A.async_accept(*a->s, [&, a](error_code const& ec) { if (ec) return; error_code e2; a->remote = eps(a->s->remote_endpoint(e2)); ev("accept completes, peer " + a->remote); accs.push_back(a);
+			std::shared_ptr<std::function<void()>> rd = std::make_shared<std::function<void()>>(); std::weak_ptr<std::function<void()>> wrd = rd;
+			*rd = [&, a, rd]() { a->s->async_read_some(asio::buffer(a->buf), [&, a, rd](error_code const& e3, std::size_t n) { if (e3) { *rd = nullptr; return; } a->got.append(a->buf.data(), n); error_code e4; if (a->got == "second") asio::async_write(*a->s, asio::buffer("reply", 5), [](error_code const&, std::size_t) {}); (*rd)(); }); };
+			(*rd)(); post_accept(); }); };
+	post_accept();
+	auto tgt = [&](int first_or_second, int v) { if (first_or_second == 0) return ip::tcp::endpoint(addr("10.0.1.1"), (unsigned short)(v == 0 ? 6200 : v == 1 ? 6100 : 6000)); return ip::tcp::endpoint(addr("10.0.1.1"), (unsigned short)(v == 0 ? 6000 : 6200)); };
+	ip::tcp::socket c(nC); c.open(ip::tcp::v4()); c.bind(ip::tcp::endpoint(addr("10.0.0.1"), 4000));
+	int n1 = 0, n2 = 0; error_code ec1, ec2; int64_t td1 = -1, td2 = -1, t_issue2 = -1; std::string got_c; std::vector<char> cb(64);
+	asio::high_resolution_timer T1(nC), T2(nC);
+	VF_API(c.async_connect(tgt(0, r.first), [&](error_code const& ec) { ++n1; ec1 = ec; td1 = now_ns(); ev("first connect completes: " + ecs(ec)); if (api_depth() > 0) fail("inline: connect handler invoked inside a library call"); }));
+	auto second = [&]() {
+		t_issue2 = now_ns(); ev("second connect issued");
+		VF_API(c.async_connect(tgt(1, r.second), [&](error_code const& ec) { ++n2; ec2 = ec; td2 = now_ns(); ev("second connect completes: " + ecs(ec));
+			if (ec) return;
+			asio::async_write(c, asio::buffer("second", 6), [](error_code const&, std::size_t) {});
+			c.async_read_some(asio::buffer(cb), [&](error_code const& e3, std::size_t n) { if (!e3) got_c.assign(cb.data(), n); }); }));
+	};
+	T1.expires_after(ms(r.t1)); T1.async_wait([&](error_code const&) {
+		ev(r.how == 0 ? "c.cancel()" : "c.close(); c.open(); c.bind()");
+		if (r.how == 0) { VF_API(c.cancel()); } else { error_code ig; VF_API(c.close(ig)); VF_API(c.open(ip::tcp::v4())); VF_API(c.bind(ip::tcp::endpoint(addr("10.0.0.1"), 4000))); }
+		if (r.dt == 0) second(); else { T2.expires_after(ms(r.dt)); T2.async_wait([&](error_code const&) { second(); }); } });
+	sim.run();
+	int64_t const MSn = 1000000; int64_t t1 = r.t1 * MSn;
+	// the first dial: exactly once; aborted at t1 unless it had completed by then
+	if (n1 != 1) fail(fmt("connect_once: the first connect's handler ran %d times", n1));
+	else {
+		int64_t natural = r.first == 2 ? 80 * MSn : 50 * MSn; std::string nat_ec = r.first == 2 ? "ok" : "refused";
+		if (ec1 == asio::error::operation_aborted) { if (td1 != t1) fail(fmt("abort_time: the first connect was aborted at %lld us, it was abandoned at %lld us", (long long)(td1 / 1000), (long long)(t1 / 1000))); if (natural < t1) fail("aborted: the first connect had completed long before it was abandoned, yet its handler reports operation_aborted"); }
+		else { if (ecs(ec1) != nat_ec) fail("first_result: the first connect completed with " + ecs(ec1) + ", expected " + nat_ec + " or operation_aborted"); if (td1 > t1) fail(fmt("late_completion: the first connect completed (%s) at %lld us, after it had been abandoned at %lld us", ecs(ec1).c_str(), (long long)(td1 / 1000), (long long)(t1 / 1000))); }
+	}
+	// the second dial is an ordinary connect
+	if (n2 != 1) fail(fmt("connect_once: the second connect's handler ran %d times (%s)", n2, n2 ? ecs(ec2).c_str() : "never completed"));
+	else if (r.second == 0) {
+		if (ec2) fail("connect_listening: the second connect, to a listening acceptor with an accept outstanding, completed with " + ecs(ec2));
+		else {
+			if (td2 != t_issue2 + 80 * MSn) fail(fmt("connect_time: the second connect completed %lld us after it was issued; the round trip is 80000 us", (long long)((td2 - t_issue2) / 1000)));
+			int matched = 0; for (auto& a : accs) if (a->got == "second") ++matched;
+			if (matched != 1) fail(fmt("pairing: the bytes written on the second connection arrived at %d accepted sockets (of %zu)", matched, accs.size()));
+			if (got_c != "reply") fail("pairing: the reply written by the accepted socket of the second connection did not arrive at the connector (got '" + got_c + "')");
+		}
+	} else {
+		if (ec2 != asio::error::connection_refused) fail("refused: the second connect, to a port nobody listens on, completed with " + ecs(ec2));
+		else if (td2 <= t_issue2) fail("refused_delay: the refusal arrived without any delay");
+		for (auto& a : accs) if (a->got == "second") fail("refused: a refused connect left a usable connection: its bytes arrived at an accepted socket");
+	}
+	// a refused / aborted dial never yields a usable connection: nothing but "second" may arrive anywhere
+	for (auto& a : accs) if (!a->got.empty() && a->got != "second") fail("stray: an accepted socket received '" + a->got + "'");
+	error_code ig; c.close(ig); for (auto& a : accs) a->s->close(ig); A.close(ig); bound_only.close(ig); sim.run();
+	return R;
+}
+
 struct PairEngine : Engine
 {
 	int D = 5; std::vector<std::vector<int>> unit_prefix; std::vector<int> unit_variant, unit_depth; bool thorough_ = false;
@@ -288,11 +362,32 @@ struct PairEngine : Engine
 				for (int k = 0; k < c1.trace[1].first; ++k) { unit_prefix.push_back({ a0, k }); unit_variant.push_back(variant); unit_depth.push_back(ud); }
 			}
 		}
-		return unit_prefix.size();
+		redials.clear();
+		for (int first = 0; first < 3; ++first) for (int how = 0; how < 2; ++how) for (int t1 : { 0, 5, 30, 49, 50, 51, 79, 80, 81, 120 }) for (int second = 0; second < 2; ++second) for (int dt : { 0, 1, 10, 45, 60 }) {
+			if (first == 2 && how == 0) continue; // after cancel() of a connect whose SYN is on its way the socket must be closed before it is used again
+			redials.push_back(Redial{ first, how, t1, second, dt });
+		}
+		return unit_prefix.size() + 1;
+	}
+	std::vector<Redial> redials;
+	void redial_unit(Ctx& ctx)
+	{
+		for (size_t i = 0; i < redials.size(); ++i) {
+			if (!ctx.next_case()) continue;
+			Case c; c.set("redial", (long long)i);
+			ctx.begin(c);
+			RedialRes r = run_redial(redials[i]);
+			ctx.R.transitions += r.transitions; ctx.state(redial_str(redials[i])); ctx.outcome(fmt("%llx", (unsigned long long)fnv(r.trace)));
+			ctx.R.counters["redial_cases"]++;
+			auto clause_of = [](std::string const& x) { return x.substr(0, x.find(':')); };
+			for (auto& f : r.fails) add_violation(ctx, clause_of(f), c, redial_str(redials[i]) + ": " + f + " | " + r.trace, "redial/" + clause_of(f));
+			ctx.end();
+		}
 	}
 	void run_unit(uint64_t u, Ctx& ctx) override
 	{
 		ctx.watchdog_s = 10;
+		if (u == unit_prefix.size()) { redial_unit(ctx); return; }
 		std::vector<int> pre = unit_prefix[size_t(u)]; size_t base = pre.size(); D = unit_depth[size_t(u)];
 		++ctx.ordinal; std::vector<int> start = pre;
 		if (ctx.resuming && ctx.cur_unit == ctx.r_unit) {
@@ -324,7 +419,9 @@ struct PairEngine : Engine
 	}
 	int replay(Case const& c, Args const& a) override
 	{
-		units(a); D = int(c.num("depth", D));
+		units(a);
+		if (c.has("redial")) { Redial const& r = redials.at(size_t(c.num("redial"))); RedialRes rr = run_redial(r); std::fprintf(stdout, "%s\n%s\n", redial_str(r).c_str(), rr.trace.c_str()); for (auto& f : rr.fails) std::fprintf(stdout, "VIOLATION %s\n", f.c_str()); std::fprintf(stdout, rr.fails.empty() ? "=> ok\n" : "=> %zu violation(s)\n", rr.fails.size()); return rr.fails.empty() ? 0 : 1; }
+		D = int(c.num("depth", D));
 		Chooser ch; ch.reset(c.ints("choices")); Exec e(D, &ch, nullptr); e.prelisten = c.num("prelisten") != 0; e.run();
 		for (auto& l : e.log) std::fprintf(stdout, "%s\n", l.c_str());
 		for (auto& f : e.fails) std::fprintf(stdout, "VIOLATION %s\n", f.c_str());
